@@ -405,6 +405,62 @@ def d_timeseries(ctx, rng, ds, paths, kind):
     c.done(ctx, "timeseries", argv, kind, F, distinct)
 
 
+def d_timeseries_ens(ctx, rng, ds, paths, kind):
+    """timeseries on ensemble inputs: after the obs line and the forecast lines, one thin line per (input, member, run) =
+    location mean of THAT member, and with -q one line per (quantile, input, run)"""
+    c = _c16()
+    qs = sorted(rng.sample([0.25, 0.5, 0.75], rng.choice([0, 1, 2])))
+    argv = ["-m", "timeseries"] + (["-q", ",".join(gen.fnum(q) for q in qs)] if qs else [])
+    fig, case = c.run(ctx, paths, argv, ds)
+    if fig is None:
+        return
+    F = len(ds["inputs"])
+    M = ds["inputs"][0]["members"]
+    times, leads, locs = refmodel.common_dims(ds)
+    T = len(times)
+    lines = [l for l in fig.lines(0) if l.get_label() != "obs"]
+    want_n = F * T + F * M * T + len(qs) * F * T
+    if len(lines) != want_n:
+        ctx.violation("timeseries|series-missing", "%d forecast/member/quantile lines, expected %d (%d inputs, %d members, %d runs, %d quantiles)"
+                      % (len(lines), want_n, F, M, T, len(qs)), case)
+        return
+    pos = F * T
+    distinct = 0
+    for k in range(F):
+        for m in range(M):
+            cube = _cube(ds, k, [("ens", m)])
+            for d, t in enumerate(times):
+                gx, gy = fig.xy(lines[pos])
+                pos += 1
+                wy = []
+                for l in leads:
+                    vals = [cube[(t, l, s[0])][0] for s in locs if (t, l, s[0]) in cube]
+                    wy.append(refmetrics.mean(vals) if vals else NAN)
+                c.compare_series(ctx, "timeseries", "member %d of input %d, run %d: location mean of that member" % (m, k, d), gy, wy, case,
+                                 1e-6, 1e-6)
+                distinct = max(distinct, len(set(y for y in gy if y == y)))
+    for q in qs:
+        for k in range(F):
+            for d, t in enumerate(times):
+                gx, gy = fig.xy(lines[pos])
+                pos += 1
+                # quantiles taken from the members: only the range is pinned down
+                for j, l in enumerate(leads):
+                    lo_, hi_ = [], []
+                    for s in locs:
+                        mem = [refmodel.case_values(ds, k, [("ens", m)], t, l, s[0]) for m in range(M)]
+                        if all(v is not None for v in mem):
+                            lo_.append(min(v[0] for v in mem))
+                            hi_.append(max(v[0] for v in mem))
+                    ctx.count("points_compared")
+                    if lo_ and j < len(gy) and gy[j] == gy[j]:
+                        a, b = refmetrics.mean(lo_), refmetrics.mean(hi_)
+                        if not (a - 1e-6 <= gy[j] <= b + 1e-6):
+                            ctx.violation("timeseries|quantile-outside-members", "quantile %s input %d run %d lead %s: %r outside [%r, %r]"
+                                          % (q, k, d, l, gy[j], a, b), case)
+    c.done(ctx, "timeseries-ens", argv, kind, F, distinct)
+
+
 def d_meteo(ctx, rng, ds, paths, kind):
     c = _c16()
     times, leads, locs = refmodel.common_dims(ds)
@@ -840,4 +896,5 @@ def d_performance_x(ctx, rng, ds, paths, kind):
     c.done(ctx, "performance-x", argv, kind, F, distinct)
 
 
-DIAGRAMS.update({"qq-q": d_qq_q, "qq-x": d_qq_x, "scatter-x": d_scatter_x, "taylor-x": d_taylor_x, "performance-x": d_performance_x})
+ENS = set(["timeseries-ens"])
+DIAGRAMS.update({"timeseries-ens": d_timeseries_ens, "qq-q": d_qq_q, "qq-x": d_qq_x, "scatter-x": d_scatter_x, "taylor-x": d_taylor_x, "performance-x": d_performance_x})
